@@ -41,6 +41,10 @@ EXTRA_CP = [0x100, 0x2028, 0x3000, 0x20AC, 0x1F600]
 NON_NORMAL = ["cafe\u0301", "\u212b", "\u2126", "\u1100\u1161", "\ufb01", "\u0958" * 83 + "a", "e\u0301" * 83 + "e", "\ufeffk", "A\u030a\u0327", "\u1e9b\u0323", "\u2000k".replace("\u2000", "\u00a0")]
 
 
+# the allow_unicode_keys option is used by its truth value; equivalent spellings of on and off
+AU_SPELLINGS = (1, "yes", 2, 1.0, 0, "", None)
+
+
 def spec(key, prefix, au):
     """Independent statement of the rule: returns the wire key, or None if the key must be rejected."""
     if isinstance(prefix, str):
@@ -163,13 +167,13 @@ def full_alphabet_cases(tier, seed):
     # the data encoding option (utf-8 / latin-1) must not make non-ASCII str keys legal
     for enc in ("utf-8", "latin-1"):
         for cp in (0x61, 0x7F, 0x80, 0xE9, 0xFF, 0x100, 0x20AC, 0x20, 0x0A):
-            for au in (False, True):
+            for au in (False, True) + AU_SPELLINGS:
                 for path in ("client", "pooled", "wire-client", "wire-pooled", "wire-hash", "wire-hash-pooled"):
                     yield (chr(cp), b"", au, path, enc)
                     yield ("k" + chr(cp) + "k", b"p:", au, path, enc)
                     yield (bytes([cp & 0xFF]), b"", au, path, enc)
     for k in NON_NORMAL:
-        for au in (False, True):
+        for au in (False, True) + AU_SPELLINGS:
             for prefix in (b"", b"p:", "pre"):
                 for path in _paths_cheap() + ["wire-client", "wire-pooled", "wire-hash", "wire-hash-pooled", "wire-client-ie"]:
                     yield (k, prefix, au, path)
@@ -278,11 +282,11 @@ H_TOKENS = ["items", b"items", "k" * 245, b"k" * 241, "k\u00e9y", "bad key", b"x
 def history_cases(tier, seed):
     syms = [(t, role) for t in H_TOKENS for role in ("key", "arg")]
     for prefix in (b"ns:", b"0123456789"):
-        for au in (False, True):
+        for au in (False, True, 1, ""):
             for path in ("check_key", "wire-client", "wire-pooled", "wire-hash"):
                 for n in (2, 3):
                     for seq in itertools.product(range(len(syms)), repeat=n):
-                        if n == 3 and (tier == "quick" or path != "check_key") and (sum(seq) + len(prefix) + au) % 5:
+                        if n == 3 and (tier == "quick" or path != "check_key") and (sum(seq) + len(prefix) + bool(au)) % 5:
                             continue
                         yield {"prefix": prefix, "au": au, "path": path, "seq": [syms[i] for i in seq]}
 
@@ -349,7 +353,8 @@ def random_strategy(tier):
                        st.text(st.characters(min_codepoint=0x21, max_codepoint=0x7E), max_size=10))
     path = st.sampled_from(["helper", "client", "pooled", "wire-client", "wire-pooled", "wire-hash", "wire-hash-pooled",
                             "wire-client-ie", "wire-hash-ie", "wire-hash-pooled-ie"])
-    return st.tuples(st.one_of(skey, bkey, longk), prefix, st.booleans(), path, st.sampled_from(["ascii", "ascii", "utf-8", "latin-1"]))
+    return st.tuples(st.one_of(skey, bkey, longk), prefix, st.one_of(st.booleans(), st.booleans(), st.sampled_from(AU_SPELLINGS)), path,
+                     st.sampled_from(["ascii", "ascii", "utf-8", "latin-1"]))
 
 
 PARTS = [
